@@ -258,6 +258,15 @@ def choices(draw, max_size=60, hi=255):
     return draw(st.lists(st.integers(0, hi), min_size=lo, max_size=max_size))
 
 
+def _with_eager(draw, flags):
+    """Half of the schedules poll after every operation (so that only the order of reports is left to
+    chance, which makes 'the slow branch reports last' common), the others choose when to poll."""
+    f = dict(flags or {})
+    if "eager_poll" not in f:
+        f["eager_poll"] = draw(st.sampled_from([0, 1]))
+    return f
+
+
 @st.composite
 def scenario(draw, c=None, flags=None, p_fail=None, abend=True, max_choices=60, fixed_outcomes=False, controls=None, canceled=False):
     ir = draw(wf_ir(c))
@@ -272,7 +281,7 @@ def scenario(draw, c=None, flags=None, p_fail=None, abend=True, max_choices=60, 
         "inputs": {},
         "outcomes": draw(outcomes(ir, p_fail=p_fail, abend=abend, fixed=fixed_outcomes, canceled=canceled)),
         "choices": draw(choices(max_choices)),
-        "flags": dict(flags or {}),
+        "flags": _with_eager(draw, flags),
         "style": draw(st.integers(0, 3)),
         "controls": sorted(ctl),
     }
@@ -356,7 +365,7 @@ def directed_scenario(draw, ir_strategy, flags=None, controls=None, max_choices=
         "inputs": {},
         "outcomes": draw(outcomes(ir, p_fail=p_fail)),
         "choices": draw(choices(max_choices)),
-        "flags": dict(flags or {}),
+        "flags": _with_eager(draw, flags),
         "style": draw(st.integers(0, 3)),
         "controls": sorted(ctl),
     }
